@@ -334,3 +334,31 @@ func WaitQuiet() {
 	}
 	WaitForeignIdle()
 }
+
+// ---- helper goroutines that are not created per use
+
+// The settling logic treats "a goroutine was created somewhere in the process" as the cheap trigger for an
+// expensive look (snapshot). Workloads that need a second harness goroutine per case (a delivery racing a local
+// call) would fire that trigger thousands of times; they borrow one of a fixed set of helpers instead.
+var (
+	helperOnce sync.Once
+	helperJobs chan func()
+)
+
+// OnHelper runs fn on one of a fixed set of long-lived harness goroutines and returns a channel that is closed
+// when fn has returned.
+func OnHelper(fn func()) <-chan struct{} {
+	helperOnce.Do(func() {
+		helperJobs = make(chan func())
+		for i := 0; i < 96; i++ {
+			go func() {
+				for j := range helperJobs {
+					j()
+				}
+			}()
+		}
+	})
+	done := make(chan struct{})
+	helperJobs <- func() { defer close(done); fn() }
+	return done
+}
